@@ -30,6 +30,12 @@ PLANS = {
     rp=[("chain minimal", "chain", BASE + ["Taint", "ToggleNoCache", "Perturb"], ["copy", "const", "fail"], ["minimal"], ["ALL", "c", "b"], 9, 14, 200, False),
         ("alias minimal", "alias", BASE + ["Retarget", "Taint"], ["copy", "const"], ["minimal"], ["ALL", "c"], 9, 10, 150, False),
         ("diamond minimal", "diamond", BASE + ["Taint", "Perturb"], ["copy", "const"], ["minimal"], ["ALL", "d"], 9, 10, 150, False)]),
+ # C04 at the level of the CLI: cache faults (missing blobs, unreadable results, outputs deleted or replaced) in both modes; the check
+ # reports builds that do not return or die from an internal crash (everything else about these histories belongs to C02 / C15)
+ "C04": dict(
+    ex=[],
+    rp=[("diamond cache faults all/minimal", "diamond", BASE + ["DropBlob", "Perturb", "CorruptResults"], ["copy", "fail"], ["all", "minimal"], ["ALL", "d"], 9, 10, 150, False),
+        ("alias cache faults all/minimal", "alias", BASE + ["DropBlob", "Perturb", "CorruptResults", "Retarget"], ["copy"], ["all", "minimal"], ["ALL", "c"], 9, 6, 100, False)]),
  "C03": dict(
     ex=[],
     rp=[("diamond all/minimal, 1..4 workers", "diamond", BASE + ["Taint", "ToggleNoCache", "Perturb"], ["copy", "const", "fail"], ["all", "minimal"], ["ALL", "d"], 9, 16, 200, False),
@@ -54,6 +60,7 @@ SYS = {
          ("alias minimal", "alias", BASE + ["Retarget", "Taint", "ToggleNoCache"], ["copy", "const"], ["minimal"], ["ALL", "c"], 3, 4, False)],
  "C05": [("diamond failures", "diamond", BASE, ["copy", "fail", "omit", "slow"], ["all"], ["ALL", "d"], 3, 4, False),
          ("check failures", "check", BASE + ["BreakExt", "Taint"], ["copy", "fail", "noest", "unest", "omit"], ["all"], ["ALL", "n"], 3, 4, False)],
+ "C04": [("diamond cache faults", "diamond", BASE + ["Perturb", "DropBlob", "CorruptResults"], ["copy", "fail"], ["all", "minimal"], ["ALL", "d"], 3, 4, False)],
  "C03": [("diamond all/minimal", "diamond", BASE + ["Taint", "ToggleNoCache", "Perturb", "DropBlob"], ["copy", "const"], ["all", "minimal"], ["ALL", "d"], 3, 4, False)],
 }
 
@@ -65,6 +72,8 @@ CANON = {
          ("alias minimal: edit of the sink, dropped blobs, deleted outputs", "alias", ["EditInput", "Build", "DropBlob", "Perturb"], ["copy"], ["minimal"], ["ALL"], "sink", 0, 6, False),
          ("diamond minimal: edit, dropped blob, perturbation", "diamond", ["EditInput", "Build", "DropBlob", "Perturb"], ["copy"], ["minimal"], ["ALL"], "kinds", 0, 5, False),
          ("alias minimal: edit, dropped blob, perturbation", "alias", ["EditInput", "Build", "DropBlob", "Perturb"], ["copy"], ["minimal"], ["ALL", "c"], "kinds", 0, 5, False)],
+ "C04": [("diamond minimal: edit of the sink, unreadable results, dropped blobs, deleted outputs", "diamond", ["EditInput", "Build", "CorruptResults", "DropBlob", "Perturb"], ["copy"], ["minimal"], ["ALL"], "sink", 6, 7, False),
+         ("diamond all: edit of the sink, unreadable results, dropped blobs, deleted outputs", "diamond", ["EditInput", "Build", "CorruptResults", "DropBlob", "Perturb"], ["copy"], ["all"], ["ALL"], "sink", 5, 6, False)],
  "C02": [("diamond: edit, dropped blob, perturbation, relocation", "diamond", ["EditInput", "Build", "DropBlob", "Perturb", "Relocate"], ["copy"], ["all"], ["ALL"], "kinds", 0, 6, False),
          ("diamond: edit of the sink, dropped blobs, deleted outputs", "diamond", ["EditInput", "Build", "DropBlob", "Perturb"], ["copy"], ["all"], ["ALL"], "sink", 0, 6, False)],
  "C01": [("diamond: edit, taint, perturbation", "diamond", ["EditInput", "Build", "Taint", "Perturb"], ["copy"], ["all"], ["ALL"], "kinds", 0, 5, True)],
